@@ -279,6 +279,69 @@ def _ignore_stack(tree):
     return [_N(x) for x in sorted(out)]
 
 
+def _old_ast(tree):
+    fs = _fill(tree) or [f for f in _top_funcs(tree) if f.name == "_fill_in_default_arguments"]
+    if len(fs) != 1:
+        return []
+    names = {t.attr for n in ast.walk(fs[0]) if isinstance(n, ast.Assign) for t in n.targets if isinstance(t, ast.Attribute) and isinstance(t.value, ast.Name) and t.attr not in ("args", "keywords", "func")}
+    return [_N(x) for x in sorted(names)]
+
+
+def _q_metadata(tree):
+    c = _os_cls(tree)
+    f = _methods(c).get("QMetaData") if c else None
+    if f is None:
+        return []
+    names = set()
+    for g in [f] + [x for x in _top_funcs(tree)]:
+        for n in ast.walk(g):
+            if isinstance(n, ast.Assign):
+                for t in n.targets:
+                    if isinstance(t, ast.Attribute) and not (isinstance(t.value, ast.Name) and t.value.id == "self") and t.attr.startswith("_") and g is f:
+                        names.add(t.attr)
+    return [_N(x) for x in sorted(names)]
+
+
+def _cs_stack_class(tree):
+    out = []
+    for c in _top_classes(tree):
+        init = _methods(c).get("__init__")
+        if init is not None and any(isinstance(n, ast.List) and len(n.elts) == 1 and isinstance(n.elts[0], ast.Dict) and not n.elts[0].keys for n in ast.walk(init)):
+            out.append(c)
+    return out
+
+
+def _cs_frame(tree):
+    out = [c for c in _top_classes(tree) if {"__enter__", "__exit__"} <= set(_methods(c))]
+    out += [f for f in _top_funcs(tree) if any(ast.unparse(d).endswith("contextmanager") for d in f.decorator_list)]
+    return out
+
+
+def _cs_called_from(tree, dunder):
+    fr = [c for c in _cs_frame(tree) if isinstance(c, ast.ClassDef)]
+    st = _cs_stack_class(tree)
+    if len(fr) != 1 or len(st) != 1:
+        return []
+    f = _methods(fr[0]).get(dunder)
+    ms = _methods(st[0])
+    names = {n.func.attr for n in ast.walk(f) if isinstance(n, ast.Call) and isinstance(n.func, ast.Attribute) and n.func.attr in ms} if f else set()
+    return [ms[x] for x in sorted(names)]
+
+
+def _cs_define(tree):
+    st = _cs_stack_class(tree)
+    if len(st) != 1:
+        return []
+    return [f for f in _methods(st[0]).values() if any(isinstance(n, ast.Assign) and isinstance(n.targets[0], ast.Subscript) and isinstance(n.targets[0].value, ast.Subscript) for n in ast.walk(f))]
+
+
+def _cs_lookup(tree):
+    st = _cs_stack_class(tree)
+    if len(st) != 1:
+        return []
+    return [f for f in _methods(st[0]).values() if "reversed" in _calls(f)]
+
+
 # canonical name -> (module, finder)
 ROLES: Dict[str, Tuple[str, Callable]] = {
     "_fill_in_default_arguments": ("func_adl.type_based_replacement", _fill),
@@ -304,9 +367,17 @@ ROLES: Dict[str, Tuple[str, Callable]] = {
     "convert_call_to_dict": ("func_adl.ast.syntatic_sugar", _convert_call_to_dict),
     "_lookup_dict": ("func_adl.util_ast", _lookup_dict),
     "_ignore_stack": ("func_adl.util_ast", _ignore_stack),
+    "_old_ast": ("func_adl.type_based_replacement", _old_ast),
+    "_q_metadata": ("func_adl.object_stream", _q_metadata),
+    "argument_stack": ("func_adl.ast.call_stack", _cs_stack_class),
+    "stack_frame": ("func_adl.ast.call_stack", _cs_frame),
+    "push_stack_frame": ("func_adl.ast.call_stack", lambda t: _cs_called_from(t, "__enter__")),
+    "pop_stack_frame": ("func_adl.ast.call_stack", lambda t: _cs_called_from(t, "__exit__")),
+    "define_name": ("func_adl.ast.call_stack", _cs_define),
+    "lookup_name": ("func_adl.ast.call_stack", _cs_lookup),
 }
 # names that are not underscore-prefixed but still private in effect (methods of classes nested in a function)
-INNER = {"lookup_type", "process_function_call", "process_parameterized_method_call", "process_method_call", "process_method_callbacks", "process_method_call_on_stream_obj", "resolve_generator", "convert_call_to_dict"}
+INNER = {"lookup_type", "process_function_call", "process_parameterized_method_call", "process_method_call", "process_method_callbacks", "process_method_call_on_stream_obj", "resolve_generator", "convert_call_to_dict", "argument_stack", "stack_frame", "push_stack_frame", "pop_stack_frame", "define_name", "lookup_name"}
 
 
 class _Rename(ast.NodeVisitor):
